@@ -18,7 +18,9 @@ from rules.common import Fn, module_bound_names
 
 COPIERS = {'copy.deepcopy', 'copy.copy', 'list', 'dict', 'set', 'tuple', 'sorted', 'frozenset', 'np.array', 'numpy.array', 'deepcopy'}
 READONLY_CALLS = {'len', 'enumerate', 'zip', 'isinstance', 'any', 'all', 'iter', 'str', 'repr', 'print', 'min', 'max', 'sum', 'bool', 'type', 'id',
-                  'itertools.chain', 'map', 'filter', 'reversed', 'hasattr', 'getattr'} | COPIERS
+                  'itertools.chain', 'map', 'filter', 'reversed', 'hasattr', 'getattr', 'zip_longest', 'itertools.zip_longest', 'chain', 'islice', 'itertools.islice',
+                  'itertools.groupby', 'groupby', 'itertools.product', 'product', 'Counter', 'collections.Counter', 'hash', 'callable', 'issubclass', 'range', 'next',
+                  'np.array', 'np.asarray', 'np.array_equal'} | COPIERS
 READONLY_METHODS = {'get', 'items', 'keys', 'values', 'index', 'count', 'join', 'format', 'copy', 'startswith', 'endswith', '__contains__', 'lower'}
 MUTABLE_ANN = ('List', 'Dict', 'Sequence', 'Set', 'Mapping', 'list', 'dict', 'set')
 
@@ -277,6 +279,34 @@ def _escapes(f: Fn, consts: Set[str], params: Tuple[str, ...] = (), depth: int =
                         if returned and not others:
                             judge_use(p, f'{what} (returned by `{p.func.id}`)')
                         return
+            # a method of another object, or a class of the package called to build an object: follow it into the one function
+            # of that name, if there is exactly one
+            target = None
+            if isinstance(p.func, ast.Attribute) and not (isinstance(p.func.value, ast.Name) and p.func.value.id in ('self', 'cls')):
+                cands = [g_ for g_ in f.repo.all_functions() if g_.name == p.func.attr and g_.cls is not None and g_.parent is None]
+                if len(cands) == 1:
+                    target = cands[0]
+            elif isinstance(p.func, ast.Name):
+                cands = [g_ for g_ in f.repo.all_functions() if g_.name == '__init__' and g_.cls is not None and g_.cls.name == p.func.id]
+                if len(cands) == 1:
+                    target = cands[0]
+            if target is not None and depth < 2 and x in p.args and not any(isinstance(a_, ast.Starred) for a_ in p.args):
+                pos = target.node.args.args[1:]
+                k = p.args.index(x)
+                if k < len(pos):
+                    inner = _escapes(Fn(f.R, target.qualname), consts, params=(pos[k].arg,), depth=depth + 1)
+                    returned = [e_ for e_ in inner if 'is returned uncopied' in e_[1]]
+                    others = [e_ for e_ in inner if e_ not in returned]
+                    for (n_, why_, ln_) in others:
+                        out.append((p, f'`{what}` is passed to `{text(p.func)}(...)`, where {why_}', getattr(p, 'lineno', 0)))
+                    if returned and not others:
+                        judge_use(p, f'{what} (returned by `{text(p.func)}`)')
+                    return
+            known_lib = isinstance(p.func, ast.Attribute) and isinstance(p.func.value, ast.Name) and p.func.value.id in ('np', 'pd', 'numpy', 'pandas', 'copy', 'itertools', 'difflib')
+            if target is None and not known_lib and isinstance(p.func, ast.Attribute) and not (isinstance(p.func.value, ast.Name) and p.func.value.id in ('self', 'cls', 'super')):
+                # a method of an object this rule knows nothing about: what it does with the argument was not read
+                out.append((p, f'`{what}` is passed uncopied to `{text(p.func)}(...)` (callee not read)', getattr(p, 'lineno', 0)))
+                return
             out.append((p, f'`{what}` is passed uncopied to `{text(p.func)}(...)`', getattr(p, 'lineno', 0)))
             return
         if isinstance(p, ast.keyword):
@@ -307,8 +337,8 @@ def _escapes(f: Fn, consts: Set[str], params: Tuple[str, ...] = (), depth: int =
         if isinstance(p, ast.Return):
             out.append((p, f'`{what}` is returned uncopied', p.lineno))
             return
-        if isinstance(p, ast.Assign):
-            for t in p.targets:
+        if isinstance(p, (ast.Assign, ast.AnnAssign)):
+            for t in (p.targets if isinstance(p, ast.Assign) else [p.target]):
                 if isinstance(t, ast.Name):
                     track_alias(t.id, p, what)
                 else:
@@ -403,6 +433,9 @@ def r3_class_constants(R) -> None:
             if key in seen:
                 continue
             seen.add(key)
+            if why.endswith('(callee not read)'):
+                R.inconclusive(fi.qualname, f'{why}: whether the callee keeps or changes the object was not decided')
+                continue
             R.violation(fi.qualname, key, f'{why}: instances (and the class) would share one mutable object', where=f'{fi.module.relpath}:{line}')
     R.expect('fsic/*', n_loads, 12, 'reads of class-level mutable attributes through self/cls')
 
